@@ -253,7 +253,7 @@ Definition ex_b1 : wblock :=
            (Some (st "3", st "3")) (Some (st "0", st "32")) 1.
 Definition ex_b2 : wblock := mkWBlock (st "2") (st "Importance Sampling") 4 false None None (Some (st "12", st "5")) 2.
 Example ex_lst_file :
-  wblock_ok ex_b1 = true /\ wblock_ok ex_b2 = true /\
+  wblock_ok ex_b1 = true /\ wblock_ok ex_b2 = true /\ version_ok (st "7.5.0") = true /\ version_ok (st "7.1.0") = false /\
   read_lst (render_lst (st "7.5.0") [ex_b1; ex_b2]) [1%N; 2%N] =
   LstOk (st "7.5.0") [(1%N, facts_of_wblock ex_b1); (2%N, facts_of_wblock ex_b2)] /\
   read_lst (render_lst (st "7.1.0") [ex_b1]) [1%N] = LstNoVersion.
